@@ -163,6 +163,7 @@ type bpath struct {
 	sendVals []*term.T
 	panicMsg string
 	chans    []*Chan // channels touched by local code (none normally)
+	choices  [][2]string
 	wg       []string
 }
 
@@ -184,6 +185,7 @@ type btrans struct {
 	wgs     map[string]bool
 	clock   bool
 	env     bool
+	choices [][2]string
 }
 
 type bmcSys struct {
@@ -422,6 +424,11 @@ func (b *bmcSys) hooks() *bmcHooks {
 		alloc: func(m *Machine, fr *Frame, in *ssa.Alloc, et typesType) *Object {
 			// a static cell per (process, allocation site): the previous incarnation
 			// must be dead when the site is executed again
+			for _, ar := range b.w.Arenas {
+				if types.Identical(ar.T, et) && strings.Contains(fr.fn.String(), ar.Fn) {
+					return nil // signalled to the caller: allocate from the arena
+				}
+			}
 			if !b.regFlat(et) || m.curProc == nil {
 				// not a pure scalar cell: a goroutine-local temporary (must be dead at
 				// the next visible operation; capture() rejects live pointers to it)
@@ -503,14 +510,14 @@ func (b *bmcSys) intrinsic(m *Machine, name string, fn *ssa.Function, args []Val
 			b.w.Chans = append(b.w.Chans, tc)
 			b.w.Timers = append(b.w.Timers, tc)
 			bc := b.chanState(tc)
-			bc.deadline = b.newState("timer."+fmt.Sprint(tc.ID)+".deadline", term.Int, f.IntC(0))
+			bc.deadline = b.newState("timer."+fmt.Sprint(tc.ID)+".deadline", term.BV(clockW), f.BVC(clockW, 0))
 		}
 		bc := b.chanState(tc)
 		b.nowUsed = true
 		if m.pathUpd == nil {
 			unsupported("time.After outside a goroutine")
 		}
-		m.pathUpd[bc.deadline] = f.IAdd(b.now, b.durToInt(d))
+		m.pathUpd[bc.deadline] = f.Add(b.now, b.dur(d))
 		return &modelRes{v: &ChanV{C: tc}}
 	case "verif.local/vrt.Closed":
 		c := args[0].(*IfaceV).V.(*ChanV)
@@ -550,7 +557,7 @@ func (b *bmcSys) intrinsic(m *Machine, name string, fn *ssa.Function, args []Val
 		return &modelRes{v: f.And(cs...)}
 	case "verif.local/vrt.Now":
 		b.nowUsed = true
-		return &modelRes{v: b.intToBV(b.now)}
+		return &modelRes{v: f.ZExt(64, b.now)}
 	case "verif.local/vrt.Daemon":
 		nm := constStr(args[0])
 		for _, p := range m.procs {
@@ -562,6 +569,17 @@ func (b *bmcSys) intrinsic(m *Machine, name string, fn *ssa.Function, args []Val
 	}
 	unsupported("BMC intrinsic %s", name)
 	return nil
+}
+
+// The virtual clock is a narrow bit-vector (durations in the harnesses are
+// small constants; ticks are bounded so that it cannot wrap within K steps).
+const clockW = 24
+
+func (b *bmcSys) dur(d *term.T) *term.T {
+	if d.S.W > clockW {
+		return b.f.Extract(clockW-1, 0, d)
+	}
+	return b.f.ZExt(clockW, d)
 }
 
 // durations and BMC integers: the clock is a mathematical integer; Go values are bit-vectors
@@ -688,7 +706,10 @@ func (b *bmcSys) symbolize(m *Machine, o *Object, v Value, t types.Type, path []
 				return v
 			}
 		}
-		leaves := m.flatten(v, t, nil)
+		leaves, okf := tryFlatten(m, v, t)
+		if !okf {
+			return v
+		}
 		sorts := m.leafSorts(t, nil)
 		vars := make([]*term.T, len(leaves))
 		for k := range leaves {
